@@ -79,8 +79,10 @@ def load_state_dict(c, kind):
     if kind == "exact_gp":
         o, X, y, strat = exact_model(c, False)
     elif kind == "inducing_point_kernel":
-        o = module_obj(c, "gpytorch.kernels.inducing_point_kernel.InducingPointKernel", "ipk", training=FALSE, _cached_kernel_mat=sym_tensor("Kzz_cached", [c.size("m").t, c.size("m").t]),
-                       _cached_kernel_inv_root=sym_tensor("Kzz_inv_root_cached", [c.size("m").t, c.size("m").t]))
+        # caches filled by the real evaluation-mode getters (name-agnostic: a consistent rename of the cache attributes stays green)
+        from contracts.C09_structured import ipk_with_populated_caches
+        o, _rec, _first, ipk_added = ipk_with_populated_caches(c)
+        it.optable["torch.nn.Module._load_from_state_dict"] = lambda it_, ctx_, a, k: (delegated.append((list(a), dict(k))), NONE)[1]
     elif kind == "grid_kernel":
         o = module_obj(c, "gpytorch.kernels.grid_kernel.GridKernel", "gk", training=FALSE, _cached_kernel_mat=sym_tensor("Kuu_cached", [c.size("g").t, c.size("g").t]))
     else:
@@ -92,7 +94,7 @@ def load_state_dict(c, kind):
     if kind == "exact_gp":
         c.prove("load.exact_gp.prediction_strategy_dropped", z3.BoolVal(o.fields.get("prediction_strategy") is NONE))
     elif kind == "inducing_point_kernel":
-        c.prove("load.inducing_point_kernel.cached_matrices_dropped", z3.BoolVal("_cached_kernel_mat" not in o.fields and "_cached_kernel_inv_root" not in o.fields))
+        c.prove("load.inducing_point_kernel.cached_matrices_dropped", z3.BoolVal(not [a for a in ipk_added if a in o.fields]), still_cached=sorted(a for a in ipk_added if a in o.fields))
     elif kind == "grid_kernel":
         c.prove("load.grid_kernel.cached_matrix_dropped", z3.BoolVal("_cached_kernel_mat" not in o.fields))
     else:
@@ -180,3 +182,61 @@ def replay_c03(model, params, clause, info):
     bad = [v for v in r["violations"] if not any(p.fullmatch("bounded:" + v["key"]) for p in pats)]
     return {"violates": bool(bad), "detail": "; ".join(f"{v['key']}: {v['detail']}" for v in bad[:5])[:700] or "enumerated histories agree with freshly constructed models on the real code (known findings aside)",
             "entry": {"module": "contracts.C03_caches", "function": "replay_c03", "args": [model, list(params), clause, info]}}
+
+
+@case("C03", clause="settings_read_at_call_time", name="jitter_read_at_call_time", expand=lambda ix: [(explicit,) for explicit in (False, True)], replay=lambda *a: replay_jitter(*a),
+      functions=["gpytorch.variational._variational_strategy._VariationalStrategy.jitter_val"])
+def jitter_read_at_call_time(c, explicit):
+    """predictions depend on 'the settings active at the call': a strategy built without an explicit jitter reads settings.variational_cholesky_jitter at EVERY
+    access (two reads under two setting values return those two values) and the read writes nothing on the strategy; an explicit jitter_val is returned as given"""
+    it, ctx = c.it, c.ctx
+    m, d = c.size("m"), c.size("d")
+    Z = sym_tensor("inducing_points", [m.t, d.t])
+    Z.meta["dtype"] = __import__("engine.values", fromlist=["VAtom"]).VAtom("torch.double")
+    e = c.real("explicit_jitter")
+    o = module_obj(c, "gpytorch.variational.variational_strategy.VariationalStrategy", "vs", _jitter_val=(e if explicit else NONE))
+    o.fields["_parameters"].d["inducing_points"] = Z
+    j1, j2 = c.real("setting_first"), c.real("setting_second")
+    for f in ("_global_float_value", "_global_double_value", "_global_half_value"):
+        ctx.classattrs[("gpytorch.settings.variational_cholesky_jitter", f)] = j1
+    before = dict(o.fields)
+    nw = len(ctx.writes)
+    v1 = c.getattr(o, "jitter_val")
+    for f in ("_global_float_value", "_global_double_value", "_global_half_value"):
+        ctx.classattrs[("gpytorch.settings.variational_cholesky_jitter", f)] = j2
+    v2 = c.getattr(o, "jitter_val")
+    wrote = [w for w in ctx.writes[nw:] if w[0] == "field"]
+    changed = sorted(k for k in set(o.fields) | set(before) if o.fields.get(k) is not before.get(k))
+    c.prove("jitter.read_writes_nothing_on_the_strategy", z3.BoolVal(not wrote and not changed), writes=[list(map(str, w)) for w in wrote], changed=changed)
+    if explicit:
+        c.prove("jitter.explicit_value_returned", z3.And(v1.t == e.t, v2.t == e.t))
+    else:
+        c.prove("jitter.each_read_returns_the_setting_active_at_that_read", z3.And(v1.t == j1.t, v2.t == j2.t))
+
+
+def replay_jitter(model, params, clause, info):
+    import torch
+    import gpytorch
+    (explicit,) = params
+
+    class G(gpytorch.models.ApproximateGP):
+        def __init__(self):
+            vd = gpytorch.variational.CholeskyVariationalDistribution(3)
+            super().__init__(gpytorch.variational.VariationalStrategy(self, torch.rand(3, 1, dtype=torch.double), vd, **({"jitter_val": 0.05} if explicit else {})))
+            self.mean_module, self.covar_module = gpytorch.means.ConstantMean(), gpytorch.kernels.RBFKernel()
+
+        def forward(self, x):
+            return gpytorch.distributions.MultivariateNormal(self.mean_module(x), self.covar_module(x))
+
+    g = G().double()
+    vs = g.variational_strategy
+    keys0 = {k: v for k, v in vs.__dict__.items() if not k.startswith("_modules")}
+    a = vs.jitter_val
+    with gpytorch.settings.variational_cholesky_jitter(double_value=0.3):
+        b = vs.jitter_val
+    c_ = vs.jitter_val
+    want = (0.05, 0.05, 0.05) if explicit else (1e-6, 0.3, 1e-6)
+    same_state = all(vs.__dict__.get(k) is v for k, v in keys0.items()) and set(k for k in vs.__dict__ if not k.startswith("_modules")) == set(keys0)
+    bad = (a, b, c_) != want or not same_state
+    return {"violates": bool(bad), "detail": f"jitter_val read under default / 0.3 / default: {(a, b, c_)} (expected {want}); strategy attributes unchanged by the reads: {same_state}",
+            "entry": {"module": "contracts.C03_caches", "function": "replay_jitter", "args": [model, list(params), clause, info]}}
